@@ -150,12 +150,11 @@ func (commander *Commander) exec(ctx context.Context, parameters Parameters, scr
 			return nil, nil, NewErrNoPostings()
 		}
 
-		verifhook.Yield(ctx, "alloc-txid")
+		// the transaction id is allocated when the log is committed, so that ids follow the log order
 		tx := ledger.NewTransaction().
 			WithPostings(result.Postings...).
 			WithMetadata(result.Metadata).
 			WithDate(script.Timestamp).
-			WithID(commander.nextTXID()).
 			WithReference(script.Reference)
 
 		log := logComputer(tx, result.AccountMetadata)
@@ -163,7 +162,7 @@ func (commander *Commander) exec(ctx context.Context, parameters Parameters, scr
 			log = log.WithIdempotencyKey(parameters.IdempotencyKey)
 		}
 
-		return executionContext.AppendLog(ctx, log)
+		return executionContext.AppendLog(ctx, log, tx)
 	})
 }
 
@@ -208,7 +207,7 @@ func (commander *Commander) SaveMeta(ctx context.Context, parameters Parameters,
 			panic(errors.Errorf("unknown target type '%s'", targetType))
 		}
 
-		return executionContext.AppendLog(ctx, log)
+		return executionContext.AppendLog(ctx, log, nil)
 	})
 	if err != nil {
 		return err
@@ -263,22 +262,29 @@ func (commander *Commander) Close() {
 	commander.running.Wait()
 }
 
-func (commander *Commander) chainLog(log *ledger.Log) *ledger.ChainedLog {
+// commit allocates the transaction id (when the log carries a new transaction), chains the log and hands it
+// to the batcher in ONE critical section: logs reach the store in the order of their ids, and transaction
+// ids increase by one in log order.
+func (commander *Commander) commit(log *ledger.Log, tx *ledger.Transaction, onPersisted func()) *ledger.ChainedLog {
 	commander.mu.Lock()
 	defer commander.mu.Unlock()
 
+	if tx != nil {
+		commander.lastTXID = big.NewInt(0).Add(commander.lastTXID, big.NewInt(1))
+		tx.ID = big.NewInt(0).Set(commander.lastTXID)
+	}
 	commander.lastLog = log.ChainLog(commander.lastLog)
+	commander.Append(commander.lastLog, onPersisted)
+
 	return commander.lastLog
 }
 
-func (commander *Commander) nextTXID() *big.Int {
+// peekTXID returns the id the next transaction would get, without allocating it (previews).
+func (commander *Commander) peekTXID() *big.Int {
 	commander.mu.Lock()
 	defer commander.mu.Unlock()
 
-	ret := big.NewInt(0).Add(commander.lastTXID, big.NewInt(1))
-	commander.lastTXID = ret
-
-	return ret
+	return big.NewInt(0).Add(commander.lastTXID, big.NewInt(1))
 }
 
 func (commander *Commander) DeleteMetadata(ctx context.Context, parameters Parameters, targetType string, targetID any, key string) error {
@@ -309,7 +315,7 @@ func (commander *Commander) DeleteMetadata(ctx context.Context, parameters Param
 			panic(errors.Errorf("unknown target type '%s'", targetType))
 		}
 
-		return executionContext.AppendLog(ctx, log)
+		return executionContext.AppendLog(ctx, log, nil)
 	})
 	if err != nil {
 		return err
